@@ -280,7 +280,7 @@ fn mutate(base: &str, rng: &mut dyn RngCore) -> String {
 }
 
 /// Stress inputs that are listed as open findings and take tens of seconds (watchdog): thorough tier only.
-pub const SLOW_KNOWN: &[&str] = &["macro-exponential"];
+pub const SLOW_KNOWN: &[&str] = &[];
 
 pub fn stress_inputs() -> Vec<(String, String)> {
     let mut v: Vec<(String, String)> = vec![];
@@ -660,9 +660,21 @@ pub fn run(ctx: &Ctx) -> Result<Ev, String> {
         w("chain3000.inc", "nop\n".into());
         w("chain.asm", ".include \"chain0.inc\"\n".into());
         w("chain40.asm", ".include \"chain2960.inc\"\n".into());
+        // every file includes the previous one twice (also: eight times over fewer levels)
+        w("dbl0.inc", "nop\n".into());
+        for i in 1..=24 {
+            w(&format!("dbl{}.inc", i), format!(".include \"dbl{}.inc\"\n.include \"dbl{}.inc\"\n", i - 1, i - 1));
+        }
+        w("doubling.asm", ".device ATtiny13\n.include \"dbl24.inc\"\n".into());
+        w("doubling12.asm", ".include \"dbl12.inc\"\n".into());
+        w("oct0.inc", ".dw 1\n".into());
+        for i in 1..=8 {
+            w(&format!("oct{}.inc", i), format!(".include \"oct{}.inc\"\n", i - 1).repeat(8));
+        }
+        w("fanout8.asm", ".include \"oct8.inc\"\n".into());
         w("bin.asm", ".include \"blob.bin\"\n".into());
         let _ = std::fs::write(dir.join("blob.bin"), (0..20000u32).map(|i| (i * 7919 % 251) as u8).collect::<Vec<u8>>());
-        let reqs: Vec<(String, String)> = ["self.asm", "ma.asm", "cond.asm", "chain.asm", "chain40.asm", "bin.asm"]
+        let reqs: Vec<(String, String)> = ["self.asm", "ma.asm", "cond.asm", "chain.asm", "chain40.asm", "bin.asm", "doubling.asm", "doubling12.asm", "fanout8.asm"]
             .iter()
             .map(|n| (format!("\u{2}FILE:{}", json!({"main": dir.join(n).to_string_lossy(), "paths": [dir.to_string_lossy()]})), format!("include:{}", n)))
             .collect();
